@@ -45,7 +45,17 @@ def check(case):
         except (struct.error, RuntimeError) as e:
             if representable:
                 return f"representable block ({addr:#x}, {n} bytes) refused: {e}"
-            return None  # refused as it must be; the assembly stops here
+            # refused as it must be; the assembly stops here and the driver closes the patch: what has been written so far is still a well-formed
+            # file -- PATCH, whole records, EOF, and nothing after the end marker
+            w.end()
+            raw = f.getvalue()
+            try:
+                records, end = ips_format.parse(raw)
+            except ips_format.IpsFormatError as e2:
+                return f"after a refused block the closed file is not a well-formed IPS file: {e2}"
+            if end != len(raw):
+                return f"after a refused block the closed file has {len(raw) - end} bytes after the EOF marker"
+            return None
         if n > 0 and not representable:
             return f"block at {addr:#x}+{n}: a record offset is not representable (>= 2^24, negative, or 0x454F46 = 'EOF') and was accepted"
         for i, b in enumerate(data):
